@@ -244,22 +244,22 @@ func render(ops []op) []string {
 // ---------------------------------------------------------------- run state
 
 const (
-	st0 = iota
-	st1
-	st2
-	st3
-	st4
-	st5
-	st6
-	st7
-	st8
-	st9
-	st10
-	st11
-	st12
-	st13
-	st14
-	st15
+	stF8CloneAtDepth0 = iota
+	stF8CloneExtentGt128
+	stF8CloneFresh
+	stF8CloneRecycled
+	stF8CloneRecycledLargerTarget
+	stF8CloneRecycledSmallerTarget
+	stF8CloneRecycledSmallerTargetStaleSpSmall
+	stF8CloneRecycledStaleSpAboveNewSp
+	stF8CloneWithClosureStack
+	stF8GrewWithLiveFrameBelow
+	stF8StackGrew
+	stProbeClosurePushAfterCloneChild
+	stProbeClosurePushAfterCloneParent
+	stProbeDepthGe64
+	stProbeScratchGe128
+	stProbeWidthGe128
 	stCount
 )
 
@@ -270,7 +270,7 @@ var statNames = [stCount]string{
 	"F8.clone_recycled",
 	"F8.clone_recycled_larger_target",
 	"F8.clone_recycled_smaller_target",
-	"F8.clone_recycled_smaller_target_stale_sp_below_extent",
+	"F8.clone_recycled_smaller_target_stale_sp_small",
 	"F8.clone_recycled_stale_sp_above_new_sp",
 	"F8.clone_with_closure_stack",
 	"F8.grew_with_live_frame_below",
@@ -585,9 +585,9 @@ func (g *gen) grew(M *mem, before int) {
 	if M.m.StackLen() == before {
 		return
 	}
-	g.stats[st10]++ // F8.stack_grew
+	g.stats[stF8StackGrew]++
 	if M.depth() >= 2 {
-		g.stats[st9]++ // F8.grew_with_live_frame_below
+		g.stats[stF8GrewWithLiveFrameBelow]++
 		g.nontriv = true
 	}
 }
@@ -606,7 +606,7 @@ func (g *gen) push(M *mem, n int) {
 	}
 	g.grew(M, before)
 	if len(top.scratch) >= 128 {
-		g.stats[st14]++ // probe.scratch>=128
+		g.stats[stProbeScratchGe128]++
 	}
 }
 
@@ -669,19 +669,19 @@ func (g *gen) call(M *mem, argc, extra, cln int) {
 	g.grew(M, before)
 
 	if len(M.kids) > 0 {
-		g.stats[st12]++ // probe.closure_push_after_clone_parent
+		g.stats[stProbeClosurePushAfterCloneParent]++
 	}
 	if M.parent != nil {
-		g.stats[st11]++ // probe.closure_push_after_clone_child
+		g.stats[stProbeClosurePushAfterCloneChild]++
 	}
 	if localc >= 128 && localc > g.maxW {
 		if g.maxW < 128 {
-			g.stats[st15]++ // probe.width>=128
+			g.stats[stProbeWidthGe128]++
 		}
 		g.maxW = localc
 	}
 	if d := M.depth(); d >= 64 && g.maxD < 64 {
-		g.stats[st13]++ // probe.depth>=64
+		g.stats[stProbeDepthGe64]++
 		g.maxD = d
 	}
 
@@ -755,31 +755,31 @@ func (g *gen) fork(M *mem, fi int) *mem {
 		reuse, reusedID = fe.m, fe.id
 		slen = max(fe.slen, need)
 		rl := reuse.StackLen()
-		g.stats[st3]++ // F8.clone_recycled
+		g.stats[stF8CloneRecycled]++
 		if rl < extent {
-			g.stats[st5]++ // F8.clone_recycled_smaller_target
-			if reuse.SP() < extent {
-				g.stats[st6]++ // F8.clone_recycled_smaller_target_stale_sp_below_extent
+			g.stats[stF8CloneRecycledSmallerTarget]++
+			if reuse.SP()+(extent-rl) < rl { // the stale sp is so low that sizing by it would not grow the stack
+				g.stats[stF8CloneRecycledSmallerTargetStaleSpSmall]++
 			}
 		}
 		if rl > need {
-			g.stats[st4]++ // F8.clone_recycled_larger_target
+			g.stats[stF8CloneRecycledLargerTarget]++
 		}
 		if reuse.SP() > extent {
-			g.stats[st7]++ // F8.clone_recycled_stale_sp_above_new_sp
+			g.stats[stF8CloneRecycledStaleSpAboveNewSp]++
 		}
 		g.nontriv = true
 	} else {
-		g.stats[st2]++ // F8.clone_fresh
+		g.stats[stF8CloneFresh]++
 	}
 	if !top.real {
-		g.stats[st0]++ // F8.clone_at_depth0
+		g.stats[stF8CloneAtDepth0]++
 	}
 	if extent > 128 {
-		g.stats[st1]++ // F8.clone_extent>128
+		g.stats[stF8CloneExtentGt128]++
 	}
 	if len(M.closure) > 0 {
-		g.stats[st8]++ // F8.clone_with_closure_stack
+		g.stats[stF8CloneWithClosureStack]++
 	}
 	// the child is registered before Clone so the op is in the history if Clone panics
 	C := g.newMem(nil, M)
